@@ -19,6 +19,7 @@ MODULE_DEPS = {
     "semaphore": [],
     "dedupe__c08": ["path", "file"],
     "dedupe__c08b": ["path"],
+    "path__c06": ["path"],
     "lock": ["path"],
     "dedupe__c20": ["path"],
     "dedupe__c07": ["dedupe", "path", "file"],
@@ -82,6 +83,8 @@ k("c08_path_should_keep_bounded", "dedupe::should_keep", module="dedupe__c08b", 
   cls="bounded", bound="<= 2 patterns per option, one two-component path; Pattern matchers arbitrary and independent")
 k("c08_path_may_drop_bounded", "dedupe::may_drop", module="dedupe__c08b", t=900,
   cls="bounded", bound="<= 2 patterns per option, one two-component path; Pattern matchers arbitrary and independent")
+k("c06_is_prefix_of_compares_components_bounded", "path::Path::is_prefix_of + Path::components", module="path__c06", t=600,
+  cls="bounded", bound="paths of one and two components with 1-2 byte names (any bytes but NUL and `/`)")
 # ---- semaphore.rs
 k("c19_release", "semaphore::Semaphore::release", module="semaphore", t=300)
 k("c19_guard_roundtrip", "semaphore::Semaphore::access + Drop for SemaphoreGuard", module="semaphore", t=300)
@@ -202,9 +205,10 @@ PROPS = {
     ),
     "C08": dict(
         kani=["c08_subgroup_keep_drop_bounded", "c08_priority_least_nested_bounded", "c08_priority_most_nested_bounded",
-              "c08_priority_top_bottom_bounded", "c08_path_should_keep_bounded", "c08_path_may_drop_bounded"],
+              "c08_priority_top_bottom_bounded", "c08_path_should_keep_bounded", "c08_path_may_drop_bounded",
+              "c06_is_prefix_of_compares_components_bounded"],
         verus=["partition_tail", "subgroup_grouping"],
-        prefixes=["C08.", "C02.partition_tail.", "C06.group."],
+        prefixes=["C08.", "C02.partition_tail.", "C06.group.", "C06.is_prefix_of."],
         category="proof",
         trust=[],
         design_ref="DESIGN.md §5 C08",
@@ -246,7 +250,7 @@ PROPS = {
         design_ref="DESIGN.md §5 C15",
     ),
     "C06": dict(
-        kani=["c06_rf_over_contract", "c06_rf_under_contract", "c06_group_filter"],
+        kani=["c06_rf_over_contract", "c06_rf_under_contract", "c06_group_filter", "c06_is_prefix_of_compares_components_bounded"],
         verus=["filegroup_counts", "subgroup_grouping"],
         prefixes=["C06."],
         category="proof",
